@@ -8,6 +8,7 @@
 //	clientid parse x<hex>            what net.ParseIP returns (library boundary)
 //	clientid san x<hex> <parsed>     clientAddr(string).String()
 //	clientid bb|bb0 <cap> <events>   real server: WebSocket carriers + KCP/smux sessions
+//	                                 (c = carrier, a = new session + first stream, t<k> = further stream of session k)
 package snowflake_server
 
 import (
@@ -233,6 +234,38 @@ func verifBlackBox(capTok, evTok string) (result string) {
 	patience := 3 * time.Second
 	unused := map[turbotunnel.ClientID][]net.Conn{} // carriers no session has used yet, oldest first
 	var out []string
+	var sessions []*smux.Session // established sessions, in order of their a-events
+	// open one more stream on a session, send on it, and report RemoteAddr() of the connection
+	// the listener hands out for it (events are sequential: it is the next one accepted)
+	openAndAccept := func(sess *smux.Session) string {
+		st, err := sess.OpenStream()
+		if err != nil {
+			return "!stream " + err.Error()
+		}
+		if _, err := st.Write([]byte("hello")); err != nil {
+			return "!stwrite " + err.Error()
+		}
+		type acc struct {
+			c   net.Conn
+			err error
+		}
+		ch := make(chan acc, 1)
+		go func() {
+			c, err := ln.Accept()
+			ch <- acc{c, err}
+		}()
+		select {
+		case a := <-ch:
+			if a.err != nil {
+				return "!accept " + a.err.Error()
+			}
+			out = append(out, verifAddrPrint(a.c.RemoteAddr()))
+			closers = append(closers, a.c)
+		case <-time.After(8 * time.Second):
+			return "!accept-timeout"
+		}
+		return ""
+	}
 	for _, ev := range wire.List(evTok) {
 		switch ev[0] {
 		case 'c':
@@ -298,31 +331,17 @@ func verifBlackBox(capTok, evTok string) (result string) {
 				return "!smux " + err.Error()
 			}
 			closers = append(closers, sess)
-			st, err := sess.OpenStream()
-			if err != nil {
-				return "!stream " + err.Error()
+			sessions = append(sessions, sess)
+			if e := openAndAccept(sess); e != "" {
+				return e
 			}
-			if _, err := st.Write([]byte("hello")); err != nil {
-				return "!stwrite " + err.Error()
+		case 't':
+			k, err := strconv.Atoi(ev[1:])
+			if err != nil || k < 0 || k >= len(sessions) {
+				return "!badcase no such session"
 			}
-			type acc struct {
-				c   net.Conn
-				err error
-			}
-			ch := make(chan acc, 1)
-			go func() {
-				c, err := ln.Accept()
-				ch <- acc{c, err}
-			}()
-			select {
-			case a := <-ch:
-				if a.err != nil {
-					return "!accept " + a.err.Error()
-				}
-				out = append(out, verifAddrPrint(a.c.RemoteAddr()))
-				closers = append(closers, a.c)
-			case <-time.After(8 * time.Second):
-				return "!accept-timeout"
+			if e := openAndAccept(sessions[k]); e != "" {
+				return e
 			}
 		default:
 			return "!badcase"
